@@ -20,12 +20,25 @@ type gobTree struct {
 	bytes []*Term
 }
 
-func (in *Interp) gobCustomMethod(t types.Type, name string) bool {
+// gobCodec: the encode / decode method pair gob would use for a repository type, in gob's order of preference
+// (GobEncoder, then encoding.BinaryMarshaler, then encoding.TextMarshaler); "" if the type is encoded structurally.
+func (in *Interp) gobCodec(t types.Type) (enc, dec string) {
 	named, ok := t.(*types.Named)
 	if !ok || named.Obj().Pkg() == nil || !strings.HasPrefix(named.Obj().Pkg().Path(), modPath) {
-		return false
+		return "", ""
 	}
-	return in.lookupMethodByName(types.NewPointer(named), name) != nil
+	pt := types.NewPointer(named)
+	for _, pair := range [][2]string{{"GobEncode", "GobDecode"}, {"MarshalBinary", "UnmarshalBinary"}, {"MarshalText", "UnmarshalText"}} {
+		if in.lookupMethodByName(pt, pair[0]) != nil && in.lookupMethodByName(pt, pair[1]) != nil {
+			return pair[0], pair[1]
+		}
+	}
+	return "", ""
+}
+
+func (in *Interp) gobCustomMethod(t types.Type, name string) bool {
+	enc, _ := in.gobCodec(t)
+	return enc != ""
 }
 
 func (in *Interp) gobBuild(v Value, t types.Type, depth int) *gobTree {
@@ -119,7 +132,8 @@ func (in *Interp) gobBuild(v Value, t types.Type, depth int) *gobTree {
 }
 
 func (in *Interp) gobEncodeCustom(recv PtrV, elem types.Type) *gobTree {
-	r := in.callMethod(IfaceV{T: types.NewPointer(elem), V: recv}, "GobEncode")
+	encName, _ := in.gobCodec(elem)
+	r := in.callMethod(IfaceV{T: types.NewPointer(elem), V: recv}, encName)
 	tv, ok := r.(TupleV)
 	if !ok || len(tv) != 2 {
 		in.unsupportedf("gob: GobEncode of %v returned %T", elem, r)
@@ -139,7 +153,8 @@ func (in *Interp) gobRestore(tr *gobTree, t types.Type) (Value, Value) {
 	switch tr.kind {
 	case 'c':
 		node := in.newNode(tr.t, nil)
-		r := in.callMethod(IfaceV{T: types.NewPointer(tr.t), V: PtrV{N: node}}, "GobDecode", in.byteSliceOf(append([]*Term{}, tr.bytes...)))
+		_, decName := in.gobCodec(tr.t)
+		r := in.callMethod(IfaceV{T: types.NewPointer(tr.t), V: PtrV{N: node}}, decName, in.byteSliceOf(append([]*Term{}, tr.bytes...)))
 		if e, ok := r.(IfaceV); ok && e.T != nil {
 			return in.zero(t), e
 		}
